@@ -369,6 +369,10 @@ func c12ExecNoisy(loc *core.Location, in c12In, noise *schedNoise) c12Out {
 		if cond != nil {
 			return c12Out{Err: cond.Msg}
 		}
+		// the service answers an event with the work as JSON
+		if _, err := json.Marshal(work); err != nil {
+			return c12Out{Err: "cannot marshal the work: " + err.Error()}
+		}
 		var vals []string
 		for _, v := range work.Values {
 			vals = append(vals, fmt.Sprint(v))
